@@ -2,6 +2,8 @@ package rules
 
 import (
 	"fmt"
+	"reflect"
+	"strings"
 
 	"golang.org/x/tools/go/ssa"
 
@@ -336,4 +338,56 @@ func derivedValues(v ssa.Value, depth int) []ssa.Value {
 		}
 	}
 	return out
+}
+
+// The JSON names of the fields of Schema are keywords of the specifications, letter for letter: a field tagged
+// `json:"contentschema"` or `json:"readonly"` is a different, unknown keyword for every document (the real keyword
+// lands in Extra and its subschema is never walked), and a case variant of a keyword becomes a known one.
+func init() {
+	for _, pid := range []string{"C01", "C05", "C06", "C17", "C18"} {
+		pid := pid
+		Properties[pid].Rules = append(Properties[pid].Rules, Rule{pid + "/keyword-names", func(c *Ctx) { ruleKeywordNames(c, pid+"/keyword-names") }})
+	}
+}
+
+var specKeywords = strings.Fields(`$schema $id $ref $anchor $dynamicRef $dynamicAnchor $vocabulary $comment $defs $recursiveRef $recursiveAnchor
+	allOf anyOf oneOf not if then else dependentSchemas prefixItems items contains properties patternProperties additionalProperties propertyNames
+	unevaluatedItems unevaluatedProperties type enum const multipleOf maximum exclusiveMaximum minimum exclusiveMinimum maxLength minLength pattern
+	maxItems minItems uniqueItems maxContains minContains maxProperties minProperties required dependentRequired
+	title description default deprecated readOnly writeOnly examples format contentEncoding contentMediaType contentSchema
+	definitions dependencies additionalItems`)
+
+func ruleKeywordNames(c *Ctx, rule string) {
+	st := c.P.Struct("Schema")
+	if st == nil {
+		c.R.Unresolved(rule, "struct Schema")
+		return
+	}
+	known := map[string]bool{}
+	for _, k := range specKeywords {
+		known[k] = true
+	}
+	n := 0
+	seen := map[string]string{}
+	for i := 0; i < st.NumFields(); i++ {
+		f := st.Field(i)
+		if !f.Exported() {
+			continue
+		}
+		tag, ok := reflect.StructTag(st.Tag(i)).Lookup("json")
+		name, _, _ := strings.Cut(tag, ",")
+		if ok && name == "-" && !strings.Contains(tag, ",") {
+			continue
+		}
+		if name == "" {
+			name = f.Name()
+		}
+		n++
+		c.R.Check(known[name], rule, "Schema."+f.Name()+":name", c.P.Pos(f.Pos()), "the JSON name of the field is a keyword of the specification", fmt.Sprintf("the field Schema.%s has the JSON name %q, which is not a keyword of draft-07 or 2020-12 (keyword names are case-sensitive): the real keyword is an unknown keyword for this package, its value lands in Extra, and a subschema in it is neither resolved nor walked", f.Name(), name))
+		if prev, dup := seen[name]; dup {
+			c.R.Bad(rule, "Schema."+f.Name()+":unique", c.P.Pos(f.Pos()), fmt.Sprintf("the fields %s and %s share the JSON name %q", prev, f.Name(), name))
+		}
+		seen[name] = f.Name()
+	}
+	c.R.Floor(rule, "fields of Schema with a JSON name", n, 50)
 }
